@@ -180,7 +180,7 @@ pub fn cases<T: KS + Send + Sync>(out: &mut Out, rng0: &mut Rng, tier: &Tier) {
                 (Some(g1), Some(o)) => (g1, o.clone()),
                 _ => {
                     // a panic on a valid input is a failing input of the property
-                    out.case("chk.c09.kmers", l(vec![]), V::Bot);
+                    out.case("chk.c09.no_panic", l(vec![nu(k), st.clone(), in_v.clone()]), V::Bot);
                     continue;
                 }
             };
@@ -190,6 +190,7 @@ pub fn cases<T: KS + Send + Sync>(out: &mut Out, rng0: &mut Rng, tier: &Tier) {
                 l(vec![nu(k), st.clone(), n(m2), in_v.clone(), cv.clone(), o.clone()]),
                 b(true),
             );
+            out.case("chk.c09.exts", l(vec![nu(k), st.clone(), in_v.clone(), cv.clone(), o.clone()]), b(true));
             out.case("chk.c09.no_dangling", l(vec![nu(k), st.clone(), o.clone()]), b(true));
             out.case("chk.c09.payload", l(vec![nu(k), st.clone(), in_v.clone(), o.clone()]), b(true));
             // an already compressed input (same join predicate) must come back unchanged up to order/orientation
@@ -206,7 +207,7 @@ pub fn cases<T: KS + Send + Sync>(out: &mut Out, rng0: &mut Rng, tier: &Tier) {
             );
             match &res2_v {
                 Some(o2) => out.case("chk.c09.idempotent", l(vec![nu(k), st.clone(), o.clone(), o2.clone()]), b(true)),
-                None => out.case("chk.c09.idempotent", l(vec![]), V::Bot),
+                None => out.case("chk.c09.no_panic", l(vec![nu(k), st.clone(), o.clone()]), V::Bot),
             }
             // the one-k-mer-per-node graph: same partition as the direct route on the surviving k-mers
             if kind == 2 && !recolour {
@@ -224,7 +225,7 @@ pub fn cases<T: KS + Send + Sync>(out: &mut Out, rng0: &mut Rng, tier: &Tier) {
                 let direct = guard(std::panic::AssertUnwindSafe(move || compress_kmers(stranded, &sp, sb)));
                 match direct.as_ref().map(base_nodes_v) {
                     Some(dv) => out.case("chk.c09.singleton_route", l(vec![nu(k), st.clone(), o.clone(), dv]), b(true)),
-                    None => out.case("chk.c09.singleton_route", l(vec![]), V::Bot),
+                    None => out.case("chk.c09.no_panic", l(vec![nu(k), st.clone(), o.clone()]), V::Bot),
                 }
             }
         }
